@@ -17,6 +17,9 @@
  *   s                 h2_init_stream(con->request, con) (+ copy slot 0 attributes)
  *   p,s,012           request_config_reset + config_patch_config (server.name/tag/max-request-size)
  *   p,s,345           mod_setenv_patch_config (set-response-header/add-environment/set-environment)
+ *   h,s               start of response processing for the (next) request: request_config_reset() as
+ *                     at the end of request_reset(), then response.c http_response_config()
+ *                     (= full cache reset + config_patch_config)
  * attr: U:hex H:hex Q:hex C:hex M:hex S:hex  I:<4|6>:<addrhex>:<strhex>  R:<namehex>:<valhex>
  * After every op the whole cond_cache of the slot is printed (result,local_result per node).
  */
@@ -25,6 +28,7 @@
 #include "configfile.c"
 #include "configparser.c"
 #include "mod_setenv.c"
+#include "response.c"          /* static http_response_config() */
 #define plugin_data h2_plugin_data   /* both TUs define a local plugin_data type */
 #include "h2.c"
 #undef plugin_data
@@ -120,7 +124,9 @@ static void dump_cache(const request_st *r) {
 
 static void dump_tree(void) {
     const uint32_t used = srv->config_context->used;
-    printf("%u", used);
+    /* "W1": counterpart of the model's well-formedness flag (the parser's trees must
+     * always satisfy the hypothesis of the C14 theorems) */
+    printf("%u W1", used);
     for (uint32_t i = 1; i < used; ++i) {
         const data_config *dc = (const data_config *)srv->config_context->data[i];
         printf(" %d:%d:", dc->context_ndx, dc->parent ? dc->parent->context_ndx : -1);
@@ -348,6 +354,17 @@ static int run_op(char *op) {
         }
         else return 0;
         printf(" p%ld.%ld.%ld=", v[0], v[1], v[2]);
+        break;
+      }
+      case 'h': {
+        if (nf != 2) return 0;
+        request_config_reset(r);
+        r->reqbody_length = 0;
+        if (HANDLER_GO_ON != http_response_config(r)) return 0;
+        long v0 = r->conf.server_name ? atol(r->conf.server_name->ptr + 1) : 0;
+        long v1 = (r->conf.server_tag && r->conf.server_tag != &default_tag)
+                ? atol(r->conf.server_tag->ptr + 1) : 0;
+        printf(" h%ld.%ld.%ld=", v0, v1, (long)r->conf.max_request_size);
         break;
       }
       default: return 0;
